@@ -51,11 +51,15 @@ def main() -> int:
     open(f"{out}/patch.diff", "w").write(diff)
     shutil.copy(f"{wt}/{demo}", f"{out}/{demo}")
     rc_changed, o1 = sh(f"timeout 300 {runner} {demo}", wt, env=env)
-    sh("git stash -q -- packages src", wt)
+    # no `git stash`: refs/stash is shared by all worktrees of a repository (collisions between agents)
+    rc_rev, o_rev = sh(f"git apply -R {out}/patch.diff", wt)
+    if rc_rev != 0:
+        print("cannot reverse patch: " + o_rev)
+        return 2
     try:
         rc_orig, o2 = sh(f"timeout 300 {runner} {demo}", wt, env=env)
     finally:
-        sh("git stash pop -q", wt)
+        sh(f"git apply {out}/patch.diff", wt)
     rc_suite, o3 = sh("timeout 900 /venv/bin/python -m pytest -q -p no:cacheprovider --timeout=900 tests 2>&1 | tail -1", wt)
     ok = rc_changed != 0 and rc_orig == 0 and " passed" in o3 and "failed" not in o3
     print(f"[{sid}] demo: changed rc={rc_changed} original rc={rc_orig}; pinned suite: {o3.strip()} -> confirmed={ok}")
